@@ -401,6 +401,38 @@ pub fn render_unicode_data(items: &[Item], base: u32) -> String {
 
 fn run_unicode_data_generators(dir: &Path) -> Result<String, String> {
     let out = dir.join("out.rs");
+    run_unicode_data_generators_to(dir, &out)?;
+    std::fs::read_to_string(&out).map_err(|e| e.to_string())
+}
+
+fn run_unicode_data_generators_to(dir: &Path, out: &Path) -> Result<(), String> {
+    run_unicode_data_generators_variant(dir, out, 0)
+}
+
+/// variant 0 = the eight generators of (b); 1 = set tables only, a small one last; 2 = one table
+fn run_unicode_data_generators_variant(dir: &Path, out: &Path, variant: u8) -> Result<(), String> {
+    if variant > 0 {
+        let r = guard(|| -> Result<(), String> {
+            let mut gen = RustCodeGen::new(out).map_err(|e| e.to_string())?;
+            let mut ucd_gen = UcdFileGen::new(dir);
+            let mut gc = GeneralCategoryGen::new();
+            gc.add(Box::new(UcdTableGen::new("Lu", "t_lu")));
+            if variant == 1 {
+                gc.add(Box::new(UnassignedTableGen::new("t_unassigned")));
+                gc.add(Box::new(UcdTableGen::new("Mn", "t_mn")));
+                gc.add(Box::new(UcdTableGen::new("Zs", "t_zs")));
+            }
+            ucd_gen.add(Box::new(gc));
+            gen.add(Box::new(ucd_gen));
+            gen.generate_code().map_err(|e| e.to_string())?;
+            Ok(())
+        });
+        return match r {
+            Err(p) => Err(format!("PANIC({})", p)),
+            Ok(Err(e)) => Err(format!("generator error: {}", e)),
+            Ok(Ok(())) => Ok(()),
+        };
+    }
     let r = guard(|| -> Result<(), String> {
         let mut gen = RustCodeGen::new(&out).map_err(|e| e.to_string())?;
         let mut ucd_gen = UcdFileGen::new(dir);
@@ -421,7 +453,174 @@ fn run_unicode_data_generators(dir: &Path) -> Result<String, String> {
     match r {
         Err(p) => Err(format!("PANIC({})", p)),
         Ok(Err(e)) => Err(format!("generator error: {}", e)),
-        Ok(Ok(())) => std::fs::read_to_string(&out).map_err(|e| e.to_string()),
+        Ok(Ok(())) => Ok(()),
+    }
+}
+
+fn failure_inputs() -> Vec<(&'static str, Vec<Item>)> {
+    vec![
+        ("small", vec![Item { off: 0, len: 1, bundle: 0, range: false }, Item { off: 2, len: 3, bundle: 1, range: true }]),
+        ("large", (0..1200u32).map(|i| Item { off: 2 * i, len: 1, bundle: (i % 2) as u8, range: false }).collect::<Vec<_>>()),
+    ]
+}
+
+/// the UnicodeData pipeline of `run_unicode_data_generators`, handed an already opened file
+fn unicode_data_pipeline_into(dir: &Path, file: &mut std::fs::File, which: usize) -> Result<(), String> {
+    use precis_tools::CodeGen;
+    let r = guard(|| -> Result<(), String> {
+        let mut ucd_gen = UcdFileGen::new(dir);
+        let mut gc = GeneralCategoryGen::new();
+        // one generator at a time (which = 0..7), or all of them (which >= 7)
+        if which == 0 || which >= 7 {
+            gc.add(Box::new(UcdTableGen::new("Lu", "t_lu")));
+        }
+        if which == 1 || which >= 7 {
+            gc.add(Box::new(UcdTableGen::new("Mn", "t_mn")));
+        }
+        if which == 2 || which >= 7 {
+            gc.add(Box::new(UcdTableGen::new("Nd", "t_nd")));
+        }
+        if which == 3 || which >= 7 {
+            gc.add(Box::new(UnassignedTableGen::new("t_unassigned")));
+        }
+        if which == 4 || which >= 7 {
+            gc.add(Box::new(ViramaTableGen::new("t_virama")));
+        }
+        if which == 5 || which >= 7 {
+            gc.add(Box::new(WidthMappingTableGen::new("t_width")));
+        }
+        if which == 6 || which >= 7 {
+            gc.add(Box::new(BidiClassGen::new("t_bidi")));
+        }
+        ucd_gen.add(Box::new(gc));
+        ucd_gen.generate_code(file).map_err(|e| e.to_string())
+    });
+    match r {
+        Err(p) => Err(format!("PANIC({})", p)),
+        Ok(x) => x,
+    }
+}
+
+/// child mode `pmc __genlimit <dir>`: the pipeline into <dir>/out.rs under whatever file-size
+/// limit the parent shell set; prints GEN-OK / GEN-ERR
+pub fn child_genlimit(dir: &str, variant: u8) -> i32 {
+    crate::subject::silence_panics();
+    let d = Path::new(dir);
+    match run_unicode_data_generators_variant(d, &d.join("out.rs"), variant) {
+        Ok(()) => println!("GEN-OK"),
+        Err(e) => println!("GEN-ERR {}", e.replace('\n', " ")),
+    }
+    0
+}
+
+/// Environment faults on the output side, enumerated: (1) the device is full from the first
+/// byte; (2) the handle is not writable at all; (3) writing fails once the file has grown to L
+/// KiB, for EVERY L up to the size of the complete output (RLIMIT_FSIZE in a child, SIGXFSZ
+/// ignored). The generator may fail however it likes - but if it reports success, the file must
+/// hold the complete tables: a table that was not emitted denotes nothing.
+pub fn check_output_failure(st: &mut Stats) {
+    let s = Scratch::new("full");
+    for (name, items) in failure_inputs() {
+        st.states += 1;
+        let text = render_unicode_data(&items, 0x1000);
+        if std::fs::write(s.dir.join("UnicodeData.txt"), &text).is_err() {
+            st.caps_hit.push("MACHINERY: cannot write scratch input".into());
+            return;
+        }
+        // the same run into a regular file must succeed (otherwise the scenario shows nothing)
+        if run_unicode_data_generators(&s.dir).is_err() {
+            continue;
+        }
+        let mkc = |what: &str, l: u64| {
+            let (n, w) = (name.to_string(), what.to_string());
+            move || Case::new("output_failure").n(l).x(json!([n, w]))
+        };
+        // (1) device full
+        let full = Path::new("/dev/full");
+        if full.exists() {
+            st.transitions += 1;
+            st.evaluations += 1;
+            if let Ok(()) = run_unicode_data_generators_to(&s.dir, full) {
+                st.violation("silent_write_failure", mkc("dev_full", 0), "an error: not one byte of the tables could be written (output = /dev/full)".into(), "generate_code() returned Ok(())".into());
+            }
+        }
+        // (2) a handle that cannot be written to
+        {
+            st.transitions += 1;
+            st.evaluations += 1;
+            let ro = s.dir.join("readonly.rs");
+            let _ = std::fs::write(&ro, "");
+            for which in 0..8usize {
+                if let Ok(mut f) = std::fs::File::open(&ro) {
+                    // a generator with nothing to write may well succeed: only judge it if it
+                    // writes something into a writable file
+                    let probe = s.dir.join("probe.rs");
+                    let wrote = std::fs::File::create(&probe).ok().and_then(|mut w| unicode_data_pipeline_into(&s.dir, &mut w, which).ok()).is_some()
+                        && std::fs::metadata(&probe).map(|m| m.len() > 0).unwrap_or(false);
+                    if wrote {
+                        st.evaluations += 1;
+                        if let Ok(()) = unicode_data_pipeline_into(&s.dir, &mut f, which) {
+                            st.violation("silent_write_failure", mkc("read_only_handle", which as u64), "an error: the handle is read-only, every write fails".into(), "generate_code(file) returned Ok(())".into());
+                        }
+                    }
+                }
+            }
+        }
+        // (3) every file-size limit below the complete size
+        let bin = match std::env::var("PMC_BIN").map(PathBuf::from).or_else(|_| std::env::current_exe()) {
+            Ok(b) => b,
+            Err(_) => continue,
+        };
+        for variant in 0..3u8 {
+        let out_path = s.dir.join("out.rs");
+        let _ = std::fs::remove_file(&out_path);
+        let complete = match run_unicode_data_generators_variant(&s.dir, &out_path, variant).ok().and_then(|_| std::fs::read_to_string(&out_path).ok()) {
+            Some(t) => t,
+            None => continue,
+        };
+        let blocks = (complete.len() as u64) / 1024 + 1;
+        for l in 0..=blocks {
+            st.transitions += 1;
+            st.evaluations += 1;
+            let _ = std::fs::remove_file(s.dir.join("out.rs"));
+            let out = std::process::Command::new("bash")
+                .arg("-c")
+                .arg("trap '' XFSZ; ulimit -f \"$1\" || exit 97; exec \"$0\" __genlimit \"$2\" \"$3\"")
+                .arg(&bin)
+                .arg(l.to_string())
+                .arg(&s.dir)
+                .arg(variant.to_string())
+                .output();
+            let o = match out {
+                Ok(o) => o,
+                Err(_) => {
+                    st.note("no bash here: the file-size-limit scenario was skipped".into());
+                    break;
+                }
+            };
+            let t = String::from_utf8_lossy(&o.stdout).to_string();
+            if o.status.code() == Some(97) {
+                st.note("ulimit -f unavailable: the file-size-limit scenario was skipped".into());
+                break;
+            }
+            let written = std::fs::read_to_string(s.dir.join("out.rs")).unwrap_or_default();
+            if t.contains("GEN-OK") {
+                if written != complete {
+                    st.violation(
+                        "silent_write_failure",
+                        mkc(&format!("file_size_limit_kib/pipeline{}", variant), l),
+                        format!("either an error, or the complete output of {} bytes", complete.len()),
+                        format!("Ok(()) with {} bytes in the file (writes beyond {} KiB fail with EFBIG)", written.len(), l),
+                    );
+                }
+                st.count("out:limited-output-complete");
+            } else if t.contains("GEN-ERR") {
+                st.count("out:limited-output-error");
+            } else {
+                st.count("out:limited-output-child-died");
+            }
+        }
+        }
     }
 }
 
@@ -802,13 +1001,15 @@ pub fn run(_env: &Env, run: &Run) -> (Stats, Coverage) {
     for s in shards {
         st.merge(s);
     }
+    // (e) environment fault: the output device is full
+    check_output_failure(&mut st);
     // (d) two generator pipelines (own inputs, own output files) at the same time in one process
     let race = crate::race::race_pass("tools", run, &mut st);
     st.sample(json!({"UnicodeData": "0000 First..0001 Last (Lu,L); gap; 0003 First..0004 Last (Lu,L); 0005 (Mn,NSM)", "expected": "T_BIDI looks up 0005 as NSM, and 0003..0004 as L; T_UNASSIGNED = {0002, 0006..10FFFF}"}));
     st.sample(json!({"Scripts.txt": "0370..0371 ; P / 0372 ; P / 0373 ; Q (Q lines first)", "expected": "T_P = 0370-0372, T_Q = 0373, T_Z empty"}));
     st.sample(json!({"built": "all tables in OUT_DIR of precis-core and precis-profiles build scripts", "expected": "each denotes exactly what the repo's resource files assign, for every code point, and is binary-searchable"}));
     let cov = Coverage {
-        rule: format!("(a) every table the real build scripts just emitted (read from cargo's out_dir) x every code point, against an independent reader of the same input files; (b) every tiling of a {}-slot code-point window into {{gap, single entry, First/Last range}} with {} attribute bundles (gc/ccc/bidi/decomposition), at four window positions (0, mid-plane, ending at U+10FFFD, ending at U+10FFFE), through RustCodeGen+UcdFileGen+GeneralCategoryGen with UcdTableGen x4, UnassignedTableGen, ViramaTableGen, WidthMappingTableGen, BidiClassGen; (c) every assignment of {{none,P,Q}} to {} slots x every segmentation into single/range lines x both value-grouped orders and the fully reversed line order through UnicodeGen<Script> and, in rotation, the four other property-file types; (d) race-detector pass: every pair of 15 generator / registry-parser pipelines (own inputs, own outputs) on two free-running threads under ThreadSanitizer, outputs compared with the single-threaded ones; oracle per table: denotation (merged intervals and values) equals what the input assigns, entries strictly increasing and disjoint, declared length = emitted length, and a binary search with the library's own expression over real precis_core::Codepoints finds exactly the members (window +-2 and far probes); bidi uses the library's default-L lookup semantics; non-trivial = inputs with at least one range and two entries / two lines", n, nb, pn),
+        rule: format!("(a) every table the real build scripts just emitted (read from cargo's out_dir) x every code point, against an independent reader of the same input files; (b) every tiling of a {}-slot code-point window into {{gap, single entry, First/Last range}} with {} attribute bundles (gc/ccc/bidi/decomposition), at four window positions (0, mid-plane, ending at U+10FFFD, ending at U+10FFFE), through RustCodeGen+UcdFileGen+GeneralCategoryGen with UcdTableGen x4, UnassignedTableGen, ViramaTableGen, WidthMappingTableGen, BidiClassGen; (c) every assignment of {{none,P,Q}} to {} slots x every segmentation into single/range lines x both value-grouped orders and the fully reversed line order through UnicodeGen<Script> and, in rotation, the four other property-file types; (e) output-side faults - device full, unwritable handle, and a file-size limit at every KiB below the complete output - after which the generators must not report success with an incomplete file; (d) race-detector pass: every pair of 15 generator / registry-parser pipelines (own inputs, own outputs) on two free-running threads under ThreadSanitizer, outputs compared with the single-threaded ones; oracle per table: denotation (merged intervals and values) equals what the input assigns, entries strictly increasing and disjoint, declared length = emitted length, and a binary search with the library's own expression over real precis_core::Codepoints finds exactly the members (window +-2 and far probes); bidi uses the library's default-L lookup semantics; non-trivial = inputs with at least one range and two entries / two lines", n, nb, pn),
         alphabet: json!({"bundles": BUNDLES.iter().take(nb as usize).map(|b| format!("{};{};{};{}", b.0, b.1, b.2, b.3)).collect::<Vec<_>>(), "window_bases": bases.iter().map(|b| format!("{:04X}", b)).collect::<Vec<_>>()}),
         bound_completed: format!("{} UnicodeData tilings x 4 positions; {} property-file configurations x 2 file types; built tables: all code points", nconf, npconf),
         exhaustive: false,
@@ -825,6 +1026,11 @@ pub fn replay(_env: &Env, case: &Case) -> Vec<Violation> {
     let mut st = Stats::default();
     match case.op.as_str() {
         "race" => st.violations = crate::race::replay(case),
+        "output_failure" => {
+            let mut all = Stats::default();
+            check_output_failure(&mut all);
+            st.violations = all.violations.into_iter().filter(|v| v.case.extra == case.extra && v.case.nums == case.nums).collect();
+        }
         "built_table" => {
             let mut all = Stats::default();
             check_built_tables(&mut all);
